@@ -260,4 +260,72 @@ def filterHash (dsha : Bytes → Bytes) (f : Filter) : Bytes := dsha f.nBytes
 def makeHeaderForFilter (dsha : Bytes → Bytes) (f : Filter) (prev : Bytes) : Bytes :=
   dsha (filterHash dsha f ++ prev)
 
+/-! ### GCSBuilder (btcutil/gcs/builder) -/
+
+inductive BErr | pTooBig | pNotSet | mNotSet | nTooBig
+  deriving DecidableEq, Repr
+
+/-- `GCSBuilder`: `data = none` is the nil map of the zero value; entries are kept in first-insertion
+    order (the Go map is unordered, the filter does not depend on the order). `randomKey` marks a key drawn
+    by `RandomKey()` that the model does not know. -/
+structure Builder where
+  p : Nat := 0
+  m : Nat := 0
+  key : Bytes := List.replicate 16 0
+  randomKey : Bool := false
+  data : Option (List Bytes) := none
+  err : Option BErr := none
+  deriving Repr
+
+namespace Builder
+
+def setKey (b : Builder) (k : Bytes) : Builder :=
+  if b.err.isSome then b else { b with key := k, randomKey := false }
+
+def setP (b : Builder) (p : Nat) : Builder :=
+  if b.err.isSome then b else if p > 32 then { b with err := some .pTooBig } else { b with p := p }
+
+def setM (b : Builder) (m : Nat) : Builder :=
+  if b.err.isSome then b else if m > 0xffffffff then { b with err := some .pTooBig } else { b with m := m }
+
+def preallocate (b : Builder) : Builder :=
+  if b.err.isSome then b else if b.data.isNone then { b with data := some [] } else b
+
+/-- `AddEntry`; `none` = Go panic (assignment to an entry of the nil map of a zero-value builder) -/
+def addEntry (b : Builder) (d : Bytes) : Option Builder :=
+  if b.err.isSome then some b else
+  match b.data with
+  | none => none
+  | some l => some { b with data := some (if l.contains d then l else l ++ [d]) }
+
+def addEntries (b : Builder) : List Bytes → Option Builder
+  | [] => some b
+  | d :: ds => match b.addEntry d with
+    | none => none
+    | some b' => addEntries b' ds
+
+/-- `WithKeyPNM(key, p, n, m)` = `GCSBuilder{}.SetKey(key).SetP(p).SetM(m).Preallocate(n)` -/
+def withKeyPNM (key : Bytes) (p m : Nat) : Builder :=
+  ((({} : Builder).setKey key).setP p).setM m |>.preallocate
+
+/-- `Key()` -/
+def getKey (b : Builder) : Except BErr Bytes :=
+  match b.err with
+  | some e => .error e
+  | none => .ok b.key
+
+/-- `Build()` with the keyed hash family `Hk` -/
+def build (Hk : Bytes → Bytes → Nat) (b : Builder) : Except BErr Filter :=
+  match b.err with
+  | some e => .error e
+  | none =>
+    if b.p = 0 then .error .pNotSet
+    else if b.m = 0 then .error .mNotSet
+    else match BV.C20.build (Hk b.key) b.p b.m (b.data.getD []) with
+      | .ok f => .ok f
+      | .error .nTooBig => .error .nTooBig
+      | .error _ => .error .pTooBig
+
+end Builder
+
 end BV.C20
